@@ -106,4 +106,12 @@ func VerifRevisions(am *Manager) []int {
 	return ids
 }
 
-var _ = types.ChangeLogType(0)
+// VerifAccountData returns a copy of the raw consensus data of an account held in the manager's
+// cache (nil when the account was never loaded).
+func VerifAccountData(am *Manager, addr common.Address) *types.AccountData {
+	sa, ok := am.accountCache[addr]
+	if !ok {
+		return nil
+	}
+	return sa.rawAccount.data.Copy()
+}
